@@ -21,6 +21,9 @@ package gen
 //	func NewDebCompressor() *DebCompressor
 //	func (c *DebCompressor) Prepare(comps []string, blobs ...[]byte) error   // ONE python3 call for all xz/bz2 work
 //	func (c *DebCompressor) Compress(comp string, raw []byte) ([]byte, error) // cached; in-process for none/gz/lzma/zst
+//	func (c *DebCompressor) CompressParts(comp string, raw []byte, cuts []int) ([]byte, error)   // raw cut at cuts, each part compressed, results concatenated
+//	func DebCompConcatenates(comp string) bool          // gz members, xz streams, bz2 streams, zstd frames: yes; lzma_alone, none: no
+//	func TarEntryOffsets(raw []byte) []int              // offsets at which the entries (and the end-of-archive trailer) of a tar start
 //	func (c *DebCompressor) Unavailable() []string      // encodings no tool could produce ("xz","bz2") -> not covered
 //	func XZDictSize(z []byte) int64 / ZstdWindowSize(z []byte) int64 / LZMAAloneDictSize(z []byte) int64   // what a stream header declares
 //	type DebField struct{ Key, Value string }
@@ -416,6 +419,66 @@ func (c *DebCompressor) Compress(comp string, raw []byte) ([]byte, error) {
 	return z, nil
 }
 
+// DebCompConcatenates says whether the format defines concatenation: a file made of several complete compressed
+// streams decodes to the concatenation of their contents (RFC 1952 gzip members, xz streams, bzip2 streams, zstd
+// frames). LZMA-alone and stored members have no such notion.
+func DebCompConcatenates(comp string) bool {
+	switch DebCompAlgo(comp) {
+	case "gz", "xz", "bz2", "zst":
+		return true
+	}
+	return false
+}
+
+// CompressParts cuts raw at the given ascending offsets, compresses every part on its own and concatenates the
+// compressed parts (what `cat a.gz b.gz`, pigz or `xz`/`zstd` on several inputs produce). No cuts = Compress.
+func (c *DebCompressor) CompressParts(comp string, raw []byte, cuts []int) ([]byte, error) {
+	if len(cuts) == 0 {
+		return c.Compress(comp, raw)
+	}
+	var parts [][]byte
+	prev := 0
+	for _, k := range cuts {
+		if k <= prev || k >= len(raw) {
+			return nil, fmt.Errorf("CompressParts: cut %d out of order or range (len %d)", k, len(raw))
+		}
+		parts = append(parts, raw[prev:k])
+		prev = k
+	}
+	parts = append(parts, raw[prev:])
+	if err := c.Prepare([]string{comp}, parts...); err != nil {
+		return nil, err
+	}
+	var out []byte
+	for _, p := range parts {
+		z, err := c.Compress(comp, p)
+		if err != nil {
+			return nil, err
+		}
+		out = append(out, z...)
+	}
+	return out, nil
+}
+
+// TarEntryOffsets returns the offsets at which the entries of a (ustar, harness-built) tar start, followed by the
+// offset of the end-of-archive trailer.
+func TarEntryOffsets(raw []byte) []int {
+	var out []int
+	off := 0
+	for off+512 <= len(raw) {
+		out = append(out, off)
+		if raw[off] == 0 { // trailer
+			break
+		}
+		size, err := strconv.ParseInt(strings.Trim(string(raw[off+124:off+136]), " \x00"), 8, 64)
+		if err != nil {
+			break
+		}
+		off += 512 + int((size+511)/512*512)
+	}
+	return out
+}
+
 func compressInProcess(comp string, raw []byte) ([]byte, error) {
 	var b bytes.Buffer
 	algo, par := DebCompAlgo(comp), ""
@@ -532,6 +595,8 @@ type DebModel struct {
 	DataFiles      []TarEntry
 	ControlComp    string
 	DataComp       string
+	ControlCuts    []int `json:",omitempty"` // the control tar is cut at these offsets and each part compressed on its own (concatenated streams)
+	DataCuts       []int `json:",omitempty"` // likewise for the data tar
 }
 
 // BinaryContent is the content of the debian-binary member.
@@ -574,11 +639,11 @@ func (m DebModel) DataName() string    { return "data.tar" + DebCompExt(m.DataCo
 // Members returns the three canonical members in dpkg's order. Callers insert, drop, reorder or rename members
 // and pass the list to BuildAr.
 func (m DebModel) Members(c *DebCompressor) ([]ArMember, error) {
-	ct, err := c.Compress(m.ControlComp, m.ControlTar())
+	ct, err := c.CompressParts(m.ControlComp, m.ControlTar(), m.ControlCuts)
 	if err != nil {
 		return nil, err
 	}
-	dt, err := c.Compress(m.DataComp, m.DataTar())
+	dt, err := c.CompressParts(m.DataComp, m.DataTar(), m.DataCuts)
 	if err != nil {
 		return nil, err
 	}
